@@ -23,7 +23,7 @@ import json
 from vlib import tlaval
 from vlib.core import Infra, ndjson_text
 
-CONSTS = 'CONSTANTS\n MaxLen = %d\n StrLen = %d\n SeqLen = %d\n PairLen = %d\n Generic = %s\n'
+CONSTS = 'CONSTANTS\n MaxLen = %d\n StrLen = %d\n SeqLen = %d\n PairLen = %d\n Generic = %s\n Deeps = {5, 33, 40, 64}\n'
 
 SIG = {
     1: ('C15:name:longer-than-4096', 'an encoded name is longer than 4096 bytes'),
@@ -143,6 +143,24 @@ def run(ctx):
             _chain(witness[0], FN), _chain(witness[1], FN))
     elif not r.ok:
         raise Infra('StackNameMC generic witness: unexpected %s %s\n%s' % (r.error, r.error_name, r.out[-2000:]))
+
+    # ---- 3b. deep stacks that differ in exactly one frame, at every depth ---------
+    r = ctx.tlc('StackNameMC', cfg_text='INIT InitSingle\nNEXT Next\nINVARIANTS SingleDiffers\nCHECK_DEADLOCK FALSE\n' +
+                CONSTS % (4096, strlen, seqlen, pairlen, 'FALSE'), dump=True, label='StackNameMC-single', timeout=1200)
+    if not r.ok:
+        raise Infra('StackNameMC single: the specification violates %s %s\n%s' % (r.error, r.error_name, r.out[-3000:]))
+    nsingle, seen_single = 0, set()
+    for st in tlaval.read_dump(r.dump):
+        for frs in (st['frs'], st['frs2']):
+            fns = tuple(_chain(frs, FN))
+            if fns in seen_single:
+                continue
+            seen_single.add(fns)
+            # NewStack depth = the whole chain (extra 0) and beyond (extra 3)
+            for extra in (0, 3):
+                chains.append({'id': 1600000 + nsingle, 'fns': list(fns), 'prefix': 'c15/deep', 'extra': extra, 'src': 'single'})
+                nsingle += 1
+    ctx.cov['single_difference_stacks'] = nsingle
 
     # ---- 4. real DecodeStack on strings and valid encodings ----------------------
     recs, rc, out = ctx.run_harness('./internal/verifh/c15', 'TestVerifC15Dec', inp={'strings': strings, 'valid': valid}, timeout=1800)
